@@ -17,8 +17,7 @@ from .core import Ctx, EndPath, Unsupported, Obligation
 HERE = os.path.dirname(os.path.abspath(__file__))
 
 
-class ModelledError(Exception):
-    """mixin marker: an exception the shim raises on purpose because the real library would"""
+ModelledError = core.ModelledError
 
 
 class Unit:
